@@ -296,7 +296,8 @@ func cmdCheck(args []string) int {
 	}
 	work, _ := os.MkdirTemp("", "hvc-"+*prop)
 	defer os.RemoveAll(work)
-	opts := SolveOpts{TimeoutMS: timeout, WorkDir: work, Workers: 16, Tags: map[string]bool{*prop: true}, KeepFiles: true}
+	opts := SolveOpts{TimeoutMS: timeout, WorkDir: work, Workers: 16, Tags: map[string]bool{*prop: true}, KeepFiles: true, CrossCheck: *tier == "thorough"}
+	crossChecked, canaryRuns := 0, 0
 
 	type fnSummary struct {
 		Func        string   `json:"function"`
@@ -397,6 +398,10 @@ func cmdCheck(args []string) int {
 			if isStructural(r.Name) {
 				structural = append(structural, k+"#"+r.Name)
 			}
+			crossChecked += r.CrossChecked
+			if r.Disagree != "" {
+				violate(k, r.Name, "solvers disagree: "+r.Disagree, r.Disagree, "", "", false)
+			}
 			if r.Status == "discharged" {
 				discharged++
 				sum.Discharged++
@@ -427,6 +432,12 @@ func cmdCheck(args []string) int {
 			violate(k, r.Name, reason, r.Detail, trunc(r.Model, 20000), keepQuery(r.Query, replayDir, violations+1), hasInput)
 		}
 		// vacuity guards
+		if *tier == "thorough" && e.funcSpecs[k] != nil && e.funcSpecs[k].IsFunctional() && fr.Err == "" {
+			canaryRuns++
+			if c := solveCanary(fr, opts); c == "contradictory" {
+				violate(k, "canary", "the hypotheses on every return path are contradictory: `ensures false` would be accepted (vacuous proof)", "", "", "", false)
+			}
+		}
 		cov := solveCovers(fr, opts)
 		for _, n := range sortedKeys(cov) {
 			if cov[n] == "unreachable" {
@@ -533,6 +544,8 @@ func cmdCheck(args []string) int {
 			"discharged_by_backend":  bySolver,
 			"solver_time_s":          float64(solverMS) / 1000.0,
 			"per_query_timeout_ms":   timeout,
+			"cross_checked_instances": crossChecked,
+			"canary_functions":        canaryRuns,
 			"samples":                samples,
 			"outside_subset":         undecided,
 			"not_covered":            pc.NotCovered,
